@@ -131,8 +131,8 @@ BechLaws ==
             /\ (s.ng = 67 => \A g \in 65..150, pz \in BOOLEAN :
                     /\ ~DecideBech([s EXCEPT !.ng = g, !.padzero = pz]).accept
                     /\ ~ImplBech([s EXCEPT !.ng = g, !.padzero = pz]).accept)
-            \* implementation layer = property layer except on the recorded shape
-            /\ (expect.impl # d => s.ver = 1 /\ ProgLen(s.ng) = 20 /\ SegwitOK(s))
+            \* implementation layer = property layer (no recorded defect shape is left)
+            /\ expect.impl = d
             \* the table is written for one prefix: the prefix only names the networks
             /\ \A h \in RegHrps :
                   LET dh == DecideBech([s EXCEPT !.hrp = h])
@@ -163,7 +163,7 @@ B58Laws ==
         IN  /\ CanonB58(s) = s
             \* the property does not look at the accidental prefix; the code does
             /\ d = DecideB58([s EXCEPT !.segprefix = FALSE], case.dn)
-            /\ (expect.impl # d => s.segprefix /\ d.accept /\ ~expect.impl.accept)
+            /\ expect.impl = d
             /\ d.accept => /\ s.ck = "ok" /\ s.plen = 20 /\ s.defect = "none"
                            /\ s.v \in {n.pkh, n.sh} /\ n.pkh # n.sh
                            /\ case.dn \in d.fornets
